@@ -272,7 +272,20 @@ class BaseVersion(object):
 
     def __hash__(self):
         # type: () -> int
-        return hash(str(self))
+        # Versions that compare equal must hash equal ("1.0" == "1.00" ==
+        # "0:1.0-0"), so hash a normalised form rather than the raw string.
+        return hash((int(self.epoch or "0"),
+                     self._hash_key(self.upstream_version or ""),
+                     self._hash_key(self.debian_revision or "")))
+
+    @staticmethod
+    def _hash_key(part):
+        # type: (str) -> Any
+        key = [(non_digits, int(digits or "0")) for non_digits, digits
+               in re.findall(r"([^0-9]*)([0-9]*)", part)]
+        while key and key[-1] == ("", 0):
+            key.pop()
+        return tuple(key)
 
 
 class AptPkgVersion(BaseVersion):
